@@ -29,6 +29,9 @@ enum Mutation {
     DeleteFrame(usize),
     DuplicateFrame(usize),
     SwapFrames(usize),
+    /// swap the first two adjacent frames at or after this index that have the same wire length (VMess: equal padding,
+    /// so that only the chunk counters stand between the swap and its acceptance)
+    SwapEqualLenFrames(usize),
     ReplayFrame(usize, usize),
     InsertAtBoundary(usize, Vec<u8>),
     RandomEdit(Vec<(usize, u8)>),
@@ -44,6 +47,7 @@ impl Mutation {
             Mutation::DeleteFrame(..) => "delete-frame",
             Mutation::DuplicateFrame(..) => "duplicate-frame",
             Mutation::SwapFrames(..) => "swap-frames",
+            Mutation::SwapEqualLenFrames(..) => "swap-frames",
             Mutation::ReplayFrame(..) => "replay-frame",
             Mutation::InsertAtBoundary(..) => "insert-bytes",
             Mutation::RandomEdit(..) => "random-edit",
@@ -112,6 +116,14 @@ fn apply(inst: &Inst, m: &Mutation) -> Option<(Vec<u8>, usize, bool)> {
             v.extend_from_slice(&w[s1..e1]);
             v.extend_from_slice(&w[e2..]);
             (v, s1, false)
+        }
+        Mutation::SwapEqualLenFrames(from) => {
+            let k = (*from..nf.saturating_sub(1)).find(|k| {
+                let (s1, e1) = frame_range(inst, *k);
+                let (s2, e2) = frame_range(inst, *k + 1);
+                e1 - s1 == e2 - s2 && w[s1..e1] != w[s2..e2]
+            })?;
+            return apply(inst, &Mutation::SwapFrames(k));
         }
         Mutation::ReplayFrame(k, at) => {
             if *k >= nf || *at >= nf || at <= k {
@@ -474,6 +486,39 @@ fn udp_case(seed: u64, i: u64, rep: &mut Report) {
         }
         rep.distinct.insert(0xD000_0000 + i * 2 + (dir == "client->server") as u64);
     }
+    // crafted reflection: a datagram whose fields, read with the layout of the OPPOSITE direction, are still well-formed
+    // (target 1.2.3.4:256 and a payload that starts like "padding length 0, IPv4 address, port"), so that only the
+    // direction marker stands between the reflected datagram and its acceptance
+    if m.is_2022() {
+        let target = refimpl::addr::Addr::V4([1, 2, 3, 4], 0x0100);
+        let mut payload = vec![0x00, 0x01, 10, 0, 0, 1, 0x1f, 0x90];
+        payload.extend_from_slice(b"INJECTED");
+        let mut crafted = BytesMut::new();
+        let mut c2 = real::ss_udp_client(&cfg);
+        if guarded(|| c2.encode(&payload, &to_address(&target), &mut crafted)).is_ok() && !crafted.is_empty() {
+            let mut src = BytesMut::from(&crafted[..]);
+            rep.evaluations += 1;
+            rep.mon("crafted_reflections_delivered", 1);
+            if let Ok(Some((data, from))) = guarded(|| c2.decode(&mut src)) {
+                rep.violation(format!("C05|udp|reflect-crafted|{}|client-accepts-its-own-request", m.name()), "a client accepted its own reflected request datagram as a reply", json!({"seed": seed, "index": i, "cfg": cfg.describe(), "released": crate::report::hex_short(&data), "labelled_from": from.describe()}));
+            }
+        }
+        // the mirror image: a reply to a client whose session id reads as "padding length 0, IPv4 address ...": reflected to the server
+        let from = refimpl::addr::Addr::V4([9, 9, 9, 9], 53);
+        let csid = 0x0000_017f_0000_0001u64;
+        let users: Vec<Option<String>> = if cfg.users.is_empty() { vec![None] } else { cfg.users.iter().map(|u| Some(u.0.clone())).collect() };
+        for u in users {
+            let mut reply = BytesMut::new();
+            if guarded(|| server.encode(b"hello from the target", &to_address(&from), csid, rng.next_u64(), 3, u.as_deref(), &mut reply)).is_ok() && !reply.is_empty() {
+                let mut src = BytesMut::from(&reply[..]);
+                rep.evaluations += 1;
+                rep.mon("crafted_reflections_delivered", 1);
+                if let Ok(Some(d)) = guarded(|| server.decode(&mut src)) {
+                    rep.violation(format!("C05|udp|reflect-crafted|{}|server-accepts-its-own-reply", m.name()), "a server accepted its own reply datagram, reflected, as a client request", json!({"seed": seed, "index": i, "cfg": cfg.describe(), "decoded_target": d.addr.describe()}));
+                }
+            }
+        }
+    }
     // reflection / opposite-direction splicing
     if !own.is_empty() {
         let mut src = BytesMut::from(&own[..]);
@@ -493,6 +538,54 @@ fn udp_case(seed: u64, i: u64, rep: &mut Report) {
                 rep.violation(format!("C05|udp|reflect|{}|server-accepts-a-server-packet", m.name()), "a server accepted a server->client datagram as a request", json!({"seed": seed, "index": i, "cfg": cfg.describe()}));
             }
         }
+    }
+}
+
+/// Streams long enough to take the chunk counters through their carries (and, for VMess, past the 16-bit counter the
+/// protocol defines): reordering, duplication and deletion of frames around those positions must still be refused.
+fn long_case(seed: u64, k: usize, proto: Proto, role: Role, rep: &mut Report, rt: &mut tokio::runtime::Runtime) {
+    let mut rng = Rng::derive(seed, 0xC05F, k as u64);
+    let cfg = Cfg::random(&mut rng, proto, 0);
+    let n = 66_200usize;
+    let writes: Vec<Vec<u8>> = (0..n).map(|j| vec![(j % 251) as u8 ^ (j / 251) as u8]).collect();
+    let spec = Spec { cfg, role, source: Source::Real, target: gen::random_addr(&mut rng), writes, request_first: vec![7], vmess_option: 0x05, max_chunk: 0x3FFF, now: 1_700_000_000 };
+    let vmess = matches!(proto, Proto::Vmess(_));
+    let mut muts: Vec<Mutation> = Vec::new();
+    for p in [126usize, 127, 128, 254, 255, 256, 32766, 32767, 32768, 65534, 65535, 65536, 65537, 65590] {
+        muts.push(Mutation::SwapFrames(p));
+    }
+    for p in [0usize, 200, 65500, 65536, 65537, 65700] {
+        muts.push(Mutation::SwapEqualLenFrames(p));
+    }
+    for p in [255usize, 65535, 65536, 65540] {
+        muts.push(Mutation::DuplicateFrame(p));
+        muts.push(Mutation::DeleteFrame(p));
+    }
+    // replaying frame k at position k + 65536 is accepted by VMess BY PROTOCOL (16-bit counter): not presented there
+    if !vmess {
+        muts.push(Mutation::ReplayFrame(0, 65535));
+        muts.push(Mutation::ReplayFrame(3, 65538));
+    }
+    muts.push(Mutation::ReplayFrame(65530, 65541));
+    for (mi, m) in muts.iter().enumerate() {
+        let inst = match spec.instantiate(&mut rng) {
+            Ok(p) => p,
+            Err(e) => {
+                rep.inconclusive(format!("long scenario could not be set up: {}", normalise(&e)));
+                return;
+            }
+        };
+        let Some((wire, first_diff, eof)) = apply(&inst, m) else { continue };
+        let Inst { dec, frame_ends, plain_ends, expected_stream, expected_dgrams, .. } = inst;
+        let rel = collect(rt, dec, vec![wire], eof, false);
+        if rel.panic.is_some() {
+            *rt = new_rt();
+        }
+        rep.case(&("long", k, mi), true);
+        rep.mon("long_stream_mutations", 1);
+        let mut short = spec.clone();
+        short.writes.truncate(4);
+        judge(rep, &short, seed, 0xF000_0000 + k as u64, "framed-read-long-stream", m, first_diff, &frame_ends, &plain_ends, &expected_stream, &expected_dgrams, rel);
     }
 }
 
@@ -519,5 +612,16 @@ pub fn run(a: &Args) -> Report {
     let nu = a.n(70, 700);
     let r2 = parallel(nu, a.threads, |i, rep| udp_case(seed, i as u64, rep));
     rep.merge(r2);
+    let mut longs: Vec<(Proto, Role)> = vec![(Proto::Vmess(3), Role::ServerStream), (Proto::Vmess(4), Role::ClientStream), (Proto::Ss(refimpl::ss::Method::B3Aes256Gcm), Role::ServerStream)];
+    if a.thorough {
+        longs.extend([(Proto::Vmess(3), Role::ClientStream), (Proto::Vmess(4), Role::ServerStream), (Proto::Ss(refimpl::ss::Method::Aes128Gcm), Role::ClientStream), (Proto::Ss(refimpl::ss::Method::ChaCha20IetfPoly1305), Role::ServerStream), (Proto::Ss(refimpl::ss::Method::B3ChaCha20Poly1305), Role::ClientStream)]);
+    }
+    if a.scale >= 0.5 && only.is_none() {
+        let r3 = parallel(longs.len(), a.threads, |k, rep| {
+            let mut rt = new_rt();
+            long_case(seed, k, longs[k].0, longs[k].1, rep, &mut rt);
+        });
+        rep.merge(r3);
+    }
     rep
 }
